@@ -62,6 +62,73 @@ def run_oracle(prop, tier, seed, focus=None, timeout=1500):
         return {"status": "error", "stderr": out.stderr[-3000:], "stdout": out.stdout[-2000:], "checked": 0, "failures": []}
 
 
+def run_rtcheck(prop, tier, seed, focus=None, timeout=1500):
+    """second bounded stand-in: the proved class invariants evaluated on real runs (hexvc/rtcheck.py)"""
+    cmd = [sys.executable, "-W", "ignore", os.path.join(ROOT, "hexvc", "rtcheck.py"), prop, "--tier", tier, "--seed", str(seed)]
+    if focus:
+        cmd += ["--focus", focus]
+    env = dict(os.environ)
+    env["HEXITAL_REPO"] = REPO
+    env.setdefault("TZ", "UTC")
+    try:
+        out = subprocess.run(cmd, capture_output=True, text=True, timeout=timeout, env=env, cwd=ROOT)
+    except subprocess.TimeoutExpired:
+        return {"status": "timeout", "checked": 0, "failures": [], "cases": [], "bound": "run-time contract check timed out"}
+    line = out.stdout.strip().splitlines()[-1] if out.stdout.strip() else ""
+    try:
+        return json.loads(line)
+    except Exception:
+        return {"status": "error", "stderr": out.stderr[-3000:], "stdout": out.stdout[-2000:], "checked": 0, "failures": []}
+
+
+def replay_model(prop, o, rp):
+    """run the reproducer reconstructed from the counter-model of a refuted obligation on the real code"""
+    xp = rp[:-5] + ".input.json"
+    json.dump(o["concrete"], open(xp, "w"))
+    r = run_explicit(xp)
+    if r and r.get("failed"):
+        return {"case": f"{prop}:model-replay:{o['id']}", "explicit": os.path.relpath(xp, ROOT), "function": r.get("function"),
+                "detail": r.get("detail"), "input": r.get("input"), "seed": 0}
+    o["replay_note"] = (r or {}).get("reason") or (r or {}).get("stderr", "")[-300:]
+    return None
+
+
+def run_explicit(path, timeout=300):
+    cmd = [sys.executable, "-W", "ignore", os.path.join(ROOT, "hexvc", "rtcheck.py"), "X", "--explicit", path if os.path.isabs(path) else os.path.join(ROOT, path)]
+    env = dict(os.environ)
+    env["HEXITAL_REPO"] = REPO
+    env.setdefault("TZ", "UTC")
+    try:
+        out = subprocess.run(cmd, capture_output=True, text=True, timeout=timeout, env=env, cwd=ROOT)
+        return json.loads(out.stdout.strip().splitlines()[-1])
+    except Exception as e:
+        return {"status": "error", "failed": False, "stderr": f"{type(e).__name__}: {e}"}
+
+
+def run_bounded(prop, tier, seed, focus=None):
+    """both bounded stand-ins merged into one record (reference oracles + run-time contract check)"""
+    if focus and ":rt-contract:" in focus:
+        return run_rtcheck(prop, tier, seed, focus)
+    oracle = run_oracle(prop, tier, seed, focus)
+    if focus:
+        return oracle
+    rt = run_rtcheck(prop, tier, seed)
+    if oracle is None:
+        return rt
+    if rt.get("status") == "error":
+        oracle["status"] = "error" if oracle.get("status") == "ok" else oracle.get("status")
+        oracle["stderr"] = (oracle.get("stderr") or "") + "\nrtcheck: " + str(rt.get("stderr"))
+        return oracle
+    if rt.get("stats", {}).get("runs"):
+        oracle["failures"] = list(oracle.get("failures", [])) + list(rt.get("failures", []))
+        oracle["checked"] = int(oracle.get("checked") or 0) + int(rt.get("checked") or 0)
+        oracle["distinct"] = int(oracle.get("distinct") or 0) + int(rt.get("distinct") or 0)
+        oracle["bound"] = str(oracle.get("bound")) + " || " + str(rt.get("bound"))
+        oracle["cases"] = list(oracle.get("cases", []))[:5] + list(rt.get("cases", []))[:3]
+        oracle["rt_contract"] = rt.get("stats")
+    return oracle
+
+
 def run_property(prop, tier, replay, jobs):
     import registry
     from hexvc.cli import run_tasks, select_tasks
@@ -117,7 +184,7 @@ def run_property(prop, tier, replay, jobs):
             violations.append(o)
 
     # bounded stand-in on the real code (never counted as proved)
-    oracle = run_oracle(prop, tier, seed)
+    oracle = run_bounded(prop, tier, seed)
     oracle_fail = []
     if oracle is not None:
         for f in oracle.get("failures", []):
@@ -133,22 +200,31 @@ def run_property(prop, tier, replay, jobs):
     os.makedirs(os.path.join(ROOT, "replay", prop), exist_ok=True)
     exit_code = 0
     reported = set()
+    replays_tried, replays_won = {}, set()
     for o in violations:
         key = o["id"]
         if key in reported:
             continue
         reported.add(key)
-        # try to obtain a concrete failing input from the bounded search on the real code
+        rp = os.path.join(ROOT, "replay", prop, hashlib.sha1(key.encode()).hexdigest()[:12] + ".json")
+        # 1. the verifier's own counter-model, reconstructed as a concrete input and run on the real code
         witness = None
-        if oracle is not None:
+        if o.get("concrete") and replays_tried.get(o.get("task"), 0) < 4 and o.get("task") not in replays_won:
+            replays_tried[o.get("task")] = replays_tried.get(o.get("task"), 0) + 1
+            w = replay_model(prop, o, rp)
+            if w is not None:
+                witness = w
+                replays_won.add(o.get("task"))
+        # 2. otherwise a failing input of the bounded search on the real code for the same function / class
+        if witness is None and oracle is not None:
             fn = o["id"].split(":")[0]
             for f in oracle.get("failures", []):
-                if f.get("function") and f["function"] in fn:
+                base = f.get("function") or ""
+                if base.endswith("._calculate_reading"):
+                    base = base.rsplit(".", 1)[0]
+                if base and base in fn:
                     witness = f
                     break
-            if witness is None and oracle.get("failures"):
-                witness = None
-        rp = os.path.join(ROOT, "replay", prop, hashlib.sha1(key.encode()).hexdigest()[:12] + ".json")
         json.dump({"property": prop, "obligation": o, "found_by": "deductive", "witness": witness,
                    "solver_output": {"status": o["status"], "model": o.get("model"), "backend": o.get("backend")},
                    "rerun": f"./check {prop} --replay {os.path.relpath(rp, ROOT)}"}, open(rp, "w"), indent=1)
@@ -233,7 +309,8 @@ def write_evidence(reg, prop, tier, seed, results, obligations, discharged, refu
     }
     if oracle is not None:
         cov["bounded"] = {
-            "tool": "executable contracts / reference oracles on the real code under /venv/bin/python (never counted as proved)",
+            "tool": "reference oracles on the real code under /venv/bin/python + run-time evaluation of the proved class invariants on real runs (hexvc/rtcheck.py, tooling interpreter) - never counted as proved",
+            "rt_contract": oracle.get("rt_contract"),
             "status": oracle.get("status"),
             "evaluations": oracle.get("checked"),
             "bound": oracle.get("bound"),
@@ -265,8 +342,16 @@ def do_replay(prop, path):
     d = json.load(open(p))
     print(json.dumps(d, indent=1)[:4000])
     w = d.get("witness")
+    if w and w.get("explicit"):
+        r = run_explicit(w["explicit"])
+        print(json.dumps({k: v for k, v in (r or {}).items() if k != "input"}, indent=1))
+        if r and r.get("failed"):
+            print(f"VIOLATION property={prop} replay={path}")
+            return 1
+        print("replay: the recorded input no longer fails on the current tree")
+        return 0
     if w and w.get("case"):
-        r = run_oracle(prop, "quick", int(w.get("seed", 0)), focus=w["case"])
+        r = run_bounded(prop, "quick", int(w.get("seed", 0)), focus=w["case"])
         if r and r.get("failures"):
             print(f"VIOLATION property={prop} replay={path}")
             return 1
